@@ -326,6 +326,47 @@ fn run(line: &str) -> String {
             let f = f.vh_finalize();
             format!("{:e} {} {}", f.area(), fv(f.centroid()), fv(f.normal()))
         }
+        "cell_volumes" => {
+            // cell_volumes <dim>: three generators on a line along x in the box [0,2]x[0,3]x[0,5] (unused axes: unit thickness);
+            // VolumeIntegral through the integrator, followed by the closed-form measures
+            let dim = a.dim();
+            let gens = [DVec3::new(0.3, 1.5, 2.5), DVec3::new(0.9, 1.5, 2.5), DVec3::new(1.7, 1.5, 2.5)];
+            let width = DVec3::new(2., 3., 5.);
+            let vi = VoronoiIntegrator::build(&gens, None, DVec3::ZERO, width, dim, false);
+            let vols = vi.compute_cell_integrals::<meshless_voronoi::integrals::VolumeIntegral>();
+            let cross = match dim {
+                Dimensionality::OneD => 1.,
+                Dimensionality::TwoD => 3.,
+                Dimensionality::ThreeD => 15.,
+            };
+            let exact = [0.6 * cross, (1.3 - 0.6) * cross, (2.0 - 1.3) * cross];
+            let mut out = String::new();
+            for v in &vols {
+                out += &format!("{:e} ", v.volume);
+            }
+            for e in &exact {
+                out += &format!("{:e} ", e);
+            }
+            out
+        }
+        "finalize_twins" => {
+            // finalize_twins <ntri> (v0 v1 v2).. gen -> (area centroid) of the stored face integral, (area centroid) of AreaCentroidIntegral
+            use meshless_voronoi::integrals::{AreaCentroidIntegral, FaceIntegral};
+            let nt = a.u();
+            let tris: Vec<[DVec3; 3]> = (0..nt).map(|_| [a.v(), a.v(), a.v()]).collect();
+            let gen = a.v();
+            let planes = vec![HalfSpace::new(DVec3::Z, DVec3::new(0., 0., 0.3), None, None)];
+            let cell = ConvexCell::vh_new(gen, 0, planes, vec![], Dimensionality::ThreeD);
+            let mut f = meshless_voronoi::VoronoiFace::vh_init(&cell, 0);
+            let mut g = <AreaCentroidIntegral as FaceIntegral>::init(&cell, 0);
+            for t in &tris {
+                f.vh_collect(t[0], t[1], t[2], gen);
+                g.collect(t[0], t[1], t[2], gen);
+            }
+            let f = f.vh_finalize();
+            let g = g.finalize();
+            format!("{:e} {} {:e} {}", f.area(), fv(f.centroid()), g.area, fv(g.centroid))
+        }
         "clip_init_cell" => {
             // clip_init_cell anchor width g q rot -> vertices (dual, loc) of the initial cell of g clipped by the bisector towards q;
             // the vertex array is rotated by `rot` before clipping
